@@ -117,6 +117,9 @@ class Registry:
         self.mutants = {}
         self.lemmas = []         # (property, name, pc, goal): induction steps of spec-function lemmas
         self.static_checks = []  # (property, name, fn(repo) -> (ok, detail)): obligations decided on the AST, no solver
+        self.native_searches = []  # (property, name, fn(root, rng, n) -> (evaluations, [failure info dicts])): native
+                                 # search on the real code backing a static obligation (cross-check and replay)
+        self.static_functions = {}  # property -> ["rel:qual"]: functions analysed by its static obligations (evidence)
         self.also_verify = {}    # property -> [(rel, qual)]: contracts of OTHER properties this property's statement is
                                  # composed with (re-verified in this property's run, reported as dependencies)
 
